@@ -112,6 +112,7 @@ class Ctx:
                 if na != nb:
                     s.teq = s.teq + (((na, nb) if term_size(na) >= term_size(nb) else (nb, na)),)
                 s.add_eq(t_len(c[1]) - t_len(c[2]))
+                s.add_eq(t_sum(c[1]) - t_sum(c[2]))     # equal arrays have equal sums
         infeasible = s.infeasible()
         if not infeasible:
             for (a, b, _) in s.tne:
@@ -1200,3 +1201,310 @@ def lax_is_strict(c, a, st, v):
     want = ("cmp", "eq", t_len(h.f["quotient"].items[0].t))
     c.ob("ENS", "is_strict ⇔ no pending unification", show_formula(v.f) if isinstance(v, VBool) else repr(v),
          isinstance(v, VBool) and v.f == want, st)
+
+
+# ------------------------------------------------------------------ iterators (C08 ITER)
+
+def iter_remaining(it):
+    sizes = it.f["pointers"].t
+    # pointers = cumsum(sizes): number of segments = len(pointers) - 1
+    return t_len(sizes) - 1 - it.f["index"].p
+
+
+@spec("Iterator<K> as std::iter::ExactSizeIterator>::len", "Iterator<K, T> as std::iter::ExactSizeIterator>::len")
+def iter_len(c, a, st, v):
+    c.eq(st, "ExactSizeIterator::len = number of segments still to come", v.p, iter_remaining(a["self"]))
+
+
+@spec("Iterator<K> as std::iter::Iterator>::size_hint", "Iterator<K, T> as std::iter::Iterator>::size_hint")
+def iter_size_hint(c, a, st, v):
+    rem = iter_remaining(a["self"])
+    lo, hi = v.items
+    c.eq(st, "size_hint lower bound = segments still to come", lo.p, rem)
+    ok = isinstance(hi, VEnum) and hi.variant == "Some" and st.eq(hi.payload[0].p, rem)
+    c.ob("ENS", "size_hint upper bound = Some(segments still to come)", repr(hi)[:120], ok, st)
+
+
+@spec("Iterator<K> as std::iter::Iterator>::next", "Iterator<K, T> as std::iter::Iterator>::next")
+def iter_next(c, a, st, v):
+    it = a["self"]
+    p = post_self(c, st)
+    rem = iter_remaining(it)
+    if is_fail(v):
+        c.ob("ENS", "next: None only at the end", "None ⇒ no segment remains", st.eq(rem, 0) or st.ge(0, rem), st)
+        c.eq(st, "next: cursor unchanged at the end", p.f["index"].p, it.f["index"].p)
+        return
+    c.ob("ENS", "next: Some only while segments remain", "Some ⇒ remaining >= 1", st.ge(rem, 1), st)
+    c.eq(st, "next: the cursor advances by one", p.f["index"].p, it.f["index"].p + 1)
+    seg = payload(v)
+    vals = it.f["values"]
+    src = tab(vals) if vals.ty == inv.FF else vals.f["0"].t
+    got = tab(seg) if seg.ty == inv.FF else seg.f["0"].t
+    ptr = it.f["pointers"].t
+    i = it.f["index"].p
+    ok = got[0] == "slice" and got[1] == src and st.eq(got[2], Poly.atom(("get", ptr, i))) \
+        and st.eq(got[3], Poly.atom(("get", ptr, i + 1)))
+    c.ob("ENS", "next: yields the slice values[pointers[i] .. pointers[i+1]]", show_term(got)[:300], ok, st)
+    c.teq(st, "next: pointers untouched", p.f["pointers"].t, ptr)
+
+
+# ------------------------------------------------------------------ guards (C13, C16)
+
+@spec("lax::functor::traits::try_define_map_arrow", "lax::functor::traits::map_arrow_witness")
+def native_functor_guard(c, a, st, v):
+    f = a["f"]
+    q0 = hyp(f).f["quotient"].items[0].t
+    if is_fail(v):
+        return
+    c.ob("ACC", "native functor path refuses diagrams with pending unifications",
+         "Some ⇒ no pending unification", st.eq(t_len(q0), 0), st)
+    r = payload(v)
+    if isinstance(r, VTup):
+        res, wit = r.items
+        n = n_nodes(f)
+        c.eq(st, "witness: one segment per input node", t_len(ic_sizes(wit)), n)
+        c.eq(st, "witness: values index the result's nodes", tgt(wit.f["values"]), n_nodes(res))
+
+
+def kahn_flags(st, name="unvisited"):
+    """The loop-carried `unvisited` flags of kahn (leaf terms named by the loop variable)."""
+    out = set()
+
+    def walk_t(t):
+        if isinstance(t, tuple):
+            if t and t[0] == "v" and isinstance(t[1], tuple) and t[1] and t[1][0] == "loopvar" \
+                    and isinstance(t[1][1], tuple) and t[1][1][0].endswith("strict::graph::kahn") and t[1][1][-1] == name:
+                out.add(t)
+            for x in t:
+                walk_t(x)
+        elif isinstance(t, Poly):
+            for a in t.atoms():
+                walk_t(a)
+    for k, p in st.lin.facts:
+        walk_t(p)
+    for t in st.bnd:
+        walk_t(t)
+    return out
+
+
+@spec("strict::eval::eval")
+def eval_guard(c, a, st, v):
+    flags = kahn_flags(st)
+    if not flags:
+        # no operation at all, or the loop never ran: flags are the initial fill
+        return
+    X = sorted(flags, key=repr)[0]
+    m = Poly.atom(("max", X))
+    if is_fail(v):
+        c.ob("REJ", "eval refuses only when some operation is unvisited", "None ⇒ max(unvisited) >= 1",
+             st.ge(m, 1), st)
+    else:
+        c.ob("ACC", "eval evaluates only when every operation was visited", "Some ⇒ unvisited is all zero",
+             st.eq(m, 0) or st.eq(t_len(X), 0), st)
+
+
+# ------------------------------------------------------------------ morphisms (C18 ERRMAP)
+
+def arrow_conditions(st, arr):
+    g, h, w, x = arr.f["source"], arr.f["target"], arr.f["w"], arr.f["x"]
+    conds = {}
+    conds["TypeMismatchW"] = [("eq", tgt(w), inv.values_len(h.f["w"]))]
+    conds["NotNaturalW"] = [("teq", g.f["w"].f["0"].t, mk_gather(st, h.f["w"].f["0"].t, tab(w)))]
+    conds["TypeMismatchX"] = [("eq", tgt(x), inv.values_len(h.f["x"]))]
+    conds["NotNaturalX"] = [("teq", g.f["x"].f["0"].t, mk_gather(st, h.f["x"].f["0"].t, tab(x)))]
+    for leg, name in (("s", "NotNaturalS"), ("t", "NotNaturalT")):
+        gs, hs = g.f[leg], h.f[leg]
+        conds[name] = [
+            ("eq", tgt(gs.f["values"]), t_len(tab(w))),
+            ("eq", tgt(x), t_len(ic_sizes(hs))),
+            ("teq", ic_sizes(gs), mk_gather(st, ic_sizes(hs), tab(x))),
+            ("teq", mk_gather(st, tab(w), tab(gs.f["values"])),
+             mk_gather(st, tab(hs.f["values"]), mk_inj(st, ic_sizes(hs), tab(x)))),
+            ("eq", tgt(w), tgt(hs.f["values"])),
+        ]
+    return conds
+
+
+ARROW_ORDER = ["TypeMismatchW", "NotNaturalW", "TypeMismatchX", "NotNaturalX", "NotNaturalS", "NotNaturalT"]
+
+
+@spec("strict::hypergraph::arrow::HypergraphArrow::<K, O, A>::validate", "strict::hypergraph::arrow::HypergraphArrow::<K, O, A>::new")
+def arrow_validate(c, a, st, v):
+    arr = a["self"] if "self" in a else VRec(inv.ARR, {"source": a["source"], "target": a["target"], "w": a["w"], "x": a["x"]})
+    conds = arrow_conditions(st, arr)
+    if not is_fail(v):
+        for name in ARROW_ORDER:
+            if name.startswith("NotNatural"):
+                c.acc(st, f"accepted ⇒ naturality condition behind {name}", [x for x in conds[name] if x[0] == "teq"])
+        return
+    e = v.payload[0]
+    name = e.variant if isinstance(e, VEnum) else "?"
+    if name in conds:
+        # the named condition really fails: the rejection path is infeasible if it held
+        c.rej(st, f"Err({name}) is reported only when its own condition fails", conds[name])
+    else:
+        c.ob("REJ", "rejection names a known condition", repr(e)[:100], False, st)
+
+
+# ------------------------------------------------------------------ input dependence (DEP)
+
+def leaves_of(x, out=None):
+    if out is None:
+        out = set()
+    if isinstance(x, tuple):
+        if x and x[0] == "v" and len(x) == 2 and isinstance(x[1], str):
+            out.add(x[1])
+        for y in x:
+            leaves_of(y, out)
+    elif isinstance(x, Poly):
+        for a_ in x.atoms():
+            leaves_of(a_, out)
+    elif isinstance(x, str):
+        pass
+    return out
+
+
+def value_deps(v, out=None):
+    if out is None:
+        out = set()
+    if isinstance(v, VSeq):
+        leaves_of(v.t, out)
+    elif isinstance(v, VNat):
+        for a_ in v.p.atoms():
+            if isinstance(a_, str):
+                out.add(a_)
+            leaves_of(a_, out)
+    elif isinstance(v, VBool):
+        leaves_of(v.f, out)
+        _formula_atoms(v.f, out)
+    elif isinstance(v, VRec):
+        for x in v.f.values():
+            value_deps(x, out)
+    elif isinstance(v, VTup):
+        for x in v.items:
+            value_deps(x, out)
+    elif isinstance(v, VEnum):
+        for x in v.payload:
+            if isinstance(x, V):
+                value_deps(x, out)
+    return out
+
+
+def _formula_atoms(f, out):
+    if isinstance(f, tuple):
+        for x in f:
+            if isinstance(x, Poly):
+                for a_ in x.atoms():
+                    if isinstance(a_, str):
+                        out.add(a_)
+                    leaves_of(a_, out)
+            elif isinstance(x, tuple):
+                _formula_atoms(x, out)
+
+
+def outcome_deps(st, v):
+    """Leaves the outcome depends on: through its value (data) and through the decisions taken on
+    the path (control)."""
+    out = value_deps(v)
+    for k, p in st.lin.facts:
+        for a_ in p.atoms():
+            if isinstance(a_, str):
+                out.add(a_)
+            leaves_of(a_, out)
+    for (x, y, _) in st.tne:
+        leaves_of(x, out)
+        leaves_of(y, out)
+    for (x, y) in st.teq:
+        leaves_of(x, out)
+        leaves_of(y, out)
+    for (key, pol) in st.unk:
+        leaves_of(key, out)
+    return out
+
+
+DEP_TABLE = {
+    "strict::open_hypergraph::arrow::OpenHypergraph::<K, O, A>::is_monogamous":
+        ["self.s.table", "self.t.table", "self.h.s.values.table", "self.h.t.values.table"],
+    "acyclic::<impl strict::hypergraph::object::Hypergraph<K, O, A>>::is_acyclic":
+        ["self.s.values.table", "self.t.values.table", "self.s.sources.table", "self.t.sources.table"],
+    "strict::open_hypergraph::arrow::OpenHypergraph::<K, O, A>::is_acyclic":
+        ["self.h.s.values.table", "self.h.t.values.table"],
+    "strict::hypergraph::object::Hypergraph::<K, O, A>::in_degree": ["self.t.values.table", "node"],
+    "strict::hypergraph::object::Hypergraph::<K, O, A>::out_degree": ["self.s.values.table", "node"],
+    "strict::hypergraph::arrow::HypergraphArrow::<K, O, A>::is_monomorphism": ["self.w.table", "self.x.table"],
+    "strict::hypergraph::arrow::HypergraphArrow::<K, O, A>::is_convex_subgraph":
+        ["self.w.table", "self.x.table", "self.target.s.values.table", "self.target.t.values.table"],
+    "strict::layer::layer": ["f.h.s.values.table", "f.h.t.values.table"],
+    "strict::eval::eval": ["f.s.table", "f.t.table", "f.h.s.values.table", "f.h.t.values.table", "f.h.x.0", "s"],
+}
+
+
+def dep_check(c, a, outs, path):
+    for suffix, needed in DEP_TABLE.items():
+        if not path.endswith(suffix):
+            continue
+        seen = set()
+        for (st, v, ctl) in outs:
+            seen |= outcome_deps(st, v)
+        for leafname in needed:
+            ok = leafname in seen
+            c.count += 1
+            c.I.oblige("DEP", c.fr, c.node, "input dependence", f"the result depends on {leafname}", ok,
+                       "dataflow" if ok else "", detail="" if ok else
+                       "no outcome of the function has data or control dependence on this input")
+
+
+_old_run = run
+
+
+def run(sc, res):
+    _old_run(sc, res)
+    c = Ctx(sc, res)
+    dep_check(c, deref_args(res), res["outs"], res["fn"]["path"])
+
+
+# ------------------------------------------------------------------ deletion (C11 COVER on the open level)
+
+@spec(f"{L_OH}::delete_nodes")
+def lax_delete_nodes(c, a, st, v):
+    f = a["self"]
+    p = post_self(c, st)
+    for fld in ("sources", "targets"):
+        t = p.f[fld].t
+        old = f.f[fld].t
+        ok = (t == old) or (t[0] == "filtermap" and t[1] == old and mentions_gather_of(t[2], old)) or (old == EMPTY and t == EMPTY)
+        c.ob("ENS", f"delete_nodes: {fld} are filtered and renumbered through the reported map",
+             f"{fld} ≡ filter_map(old {fld}, map): got {show_term(t)[:200]}", ok, st)
+
+
+def mentions_gather_of(x, idx):
+    if isinstance(x, tuple):
+        if len(x) == 3 and x[0] == "gather" and x[2] == idx:
+            return True
+        return any(mentions_gather_of(y, idx) for y in x)
+    if isinstance(x, Poly):
+        return any(mentions_gather_of(a_, idx) for a_ in x.atoms())
+    return False
+
+
+@spec(f"{L_H}::delete_nodes_witness")
+def lax_delete_nodes_witness(c, a, st, v):
+    f = a["self"]
+    p = post_self(c, st)
+    L = f.f["adjacency"].t
+    got = p.f["adjacency"].t
+    if got == L:
+        return      # nothing removed on this path
+    ok = False
+    if got[0] == "lmap" and got[1] == L:
+        body = lax_model.thaw(got[2])
+        ok = True
+        for fld in ("sources", "targets"):
+            t = body.f[fld].t
+            old = ("el", L, fld)
+            if not (t[0] == "filtermap" and t[1] == old and mentions_gather_of(t[2], old)):
+                ok = False
+    c.ob("ENS", "delete_nodes_witness: every hyperedge's sources and targets are filtered and renumbered through the map",
+         f"adjacency ≡ map(e -> filter_map through the renumber map): got {show_term(got)[:300]}", ok or L == EMPTY, st)
+    c.eq(st, "delete_nodes_witness: the reported map has one entry per old node", t_len(v.t), t_len(f.f["nodes"].t))
+    c.teq(st, "delete_nodes_witness: hyperedge labels untouched", p.f["edges"].t, f.f["edges"].t)
